@@ -197,12 +197,23 @@ ROUND3 = {
  "C19": " Round 3: the per-apply ordering rule is now a life-cycle typestate (constructor; apply; apply; ...): whenever apply() transports the grid the kick in effect was computed from the queue front, and the entry recorded is the one transported - independent of whether the kick is computed at the start of apply() or prepared at the end of the previous one.",
  "C20": " Round 3: (R7) no getter and no first use in main pushes an option value through a value-changing conversion (floating->integral, narrower or differently signed integer, double->float in a getter).",
 }
+RD_TEXT = (" Dimensional consistency (rule RD, engine E7): a units-of-measure inference over the whole program (dimension variables per storage location, "
+           "linear constraints from every arithmetic expression, solved over the rationals; units taken from the options' help texts, the physcons constants "
+           "and the unit names used as keys) shows that the quantities this property depends on have the dimensions their use demands, for every parameter set; "
+           "dimension-neutral slips are not visible to it.")
+for _p in ("C03", "C04", "C05", "C06", "C07", "C09", "C10", "C16", "C19"):
+    ROUND3[_p] = ROUND3.get(_p, "") + RD_TEXT
+ROUND3["C10"] += (" For C10 this covers the 30 unit attributes of the results file (metres, seconds, amperes, coulombs, electron volts, volts, watts, ohms, turns): "
+                  "attribute x dimension of the stored numbers = the named unit, with the stored numbers linked to the arrays written; the impedance samples come out in ohms "
+                  "from the wake scaling, consistent with the stored Volt/Watt factors (the 'absolute strength' clause, dimensionally).")
 for _p, _t in ROUND3.items():
     CLAIMED[_p]["text"] = CLAIMED[_p]["text"].rstrip() + _t
 CLAIMED["C19"]["technique"] = "call-argument role agreement (resolved constructors), symbolic folding of the modulation expressions, life-cycle typestate (may-dataflow over the CFGs of constructors and apply) and exactly-once counts on the CFG"
 CLAIMED["C09"]["technique"] = CLAIMED["C09"]["technique"] + "; freshness typestate on main's CFG for the projection->moment dependence"
 CLAIMED["C15"]["technique"] = CLAIMED["C15"]["technique"] + "; effect analysis of apply() after the transport against the read set of applyTo"
 CLAIMED["C20"]["technique"] = CLAIMED["C20"]["technique"] + "; conversion-kind analysis (clang cast kinds) on the path field -> getter -> first use"
+for _p in ("C03", "C04", "C05", "C06", "C07", "C09", "C10", "C16", "C19"):
+    CLAIMED[_p]["technique"] = CLAIMED[_p]["technique"] + "; dimensional analysis (units-of-measure type inference, linear constraints over Q)"
 CLAIMED["C03"]["technique"] = CLAIMED["C03"]["technique"] + "; cross-procedural substitution (field <- constructor parameter <- main's argument <- main's definitions) decided by sympy normal forms"
 NOT_YET = "check not built yet in this round (static rule designed in DESIGN.md §3, not implemented)"
 NA = {}
